@@ -304,7 +304,34 @@ def c13_items(tier: str, seed: int):
 # ---------------------------------------------------------------------------------------
 # C14
 
-def c14_items(tier: str, seed: int):
+RAW_PROBE = """use enum_tools::EnumTools;
+#[derive(Clone, Copy, EnumTools)]
+#[enum_tools(as_str, names, Debug, Display)]
+#[repr(u8)]
+#[allow(non_camel_case_types)]
+pub enum E { r#type, r#loop = 7 }
+fn main() {
+    println!("as_str={}|{}", E::r#type.as_str(), E::r#loop.as_str());
+    println!("names={}", E::names().collect::<Vec<_>>().join("|"));
+    println!("fmt={}|{:?}", E::r#type, E::r#loop);
+}
+"""
+
+
+def learn_raw_spelling(g) -> str:
+    """Which string is "the name" of a variant written as a raw identifier (`r#type`) is not documented.
+    C14 does not guess: it *observes* what as_str / names / Display / Debug answer on the tree under test and
+    orders raw-identifier variants by that spelling.  -> "raw" | "plain"; anything else is inconclusive for the
+    raw-identifier items (C03 / C08 report disagreeing string items)."""
+    out = g.probe_bin("rawprobe", RAW_PROBE)
+    if out.split() == ["as_str=r#type|r#loop", "names=r#type|r#loop", "fmt=r#type|r#loop"]:
+        return "raw"
+    if out.split() == ["as_str=type|loop", "names=type|loop", "fmt=type|loop"]:
+        return "plain"
+    return "mixed:" + out.replace("\n", " ")[:200]
+
+
+def c14_items(tier: str, seed: int, raw_spelling=None):
     rng = random.Random(1400 + seed)
     items = []
     nid = [0]
@@ -329,6 +356,11 @@ def c14_items(tier: str, seed: int):
         kinds.append(("hex4", [("A", "0x10", None), ("B", "0b11", None), ("C", "-0o7", "zz"), ("D", "1_000", None)]))
     kinds.append(("i64_limits4", [("A", "-9223372036854775808", None), ("B", "0", None), ("C", "9223372036854775807", None), ("D", "5", "zz")]))
     kinds.append(("i64_implicit_to_max3", [("A", "0x7fff_ffff_ffff_fffe", None), ("B", None, None), ("C", "-1", None)]))
+    if raw_spelling in ("raw", "plain"):
+        # raw identifiers: "r#type" < "s" < "type", "Z" < "r#loop" < "loop" ... the verdict flips with the spelling
+        kinds.append(("rawident3", [("r#type", "1", None), ("s", "2", None), ("u", "3", None)]))
+        kinds.append(("rawident4", [("r#loop", None, None), ("m", None, None), ("r#as", None, "n"), ("q", None, None)]))
+        kinds.append(("rawident_both3", [("r#fn", "-2", None), ("r#match", "5", None), ("g", "9", None)]))
     flags = [(False, False), (True, False), (False, True), (True, True)]
     for label, vs in kinds:
         perms = list(itertools.permutations(range(len(vs))))
@@ -346,7 +378,10 @@ def c14_items(tier: str, seed: int):
                 v = last + 1 if disc is None else parse_literal(disc)
                 last = v
                 vals.append(v)
-                names.append(ident if ren is None else ren)
+                if ren is None and ident.startswith("r#") and raw_spelling == "plain":
+                    names.append(ident[2:])
+                else:
+                    names.append(ident if ren is None else ren)
             if len(set(vals)) != len(vals):
                 continue  # duplicate discriminants: not valid Rust at all
             repr_ = "i64" if label.startswith("i64") else ("i128" if label == "case3" else "i16")
@@ -385,7 +420,7 @@ def c14_items(tier: str, seed: int):
 RULES = {
     "C12": "items = mutation operators (not an enum; no variants; variants with fields; non-literal discriminant expressions at every position; values outside i64 and implicit overflow; missing / duplicated / non-primitive repr; >= 65535 variants) applied to several base declarations and reprs; each must fail to compile (screened in batches, every apparent acceptance recompiled alone) while its control copy without the derive compiles; counted: distinct (operator, repr/base, position)",
     "C13": "items = invalid enum-level and variant-level enum_tools attributes (unknown / mis-cased feature, unknown parameter for each of the 18 parsers, duplicated feature / parameter, undocumented mode / vis strings, wrong value kinds, range without iter / with table_inline, iter range mode on holes, malformed rename) on a gapless and a with-holes enum; each must fail to compile; counted: distinct (mutation, enum)",
-    "C14": "items = all (quick: up to 24) declaration-order permutations of 3-5 variant enums with explicit / implicit / mixed discriminants and renames x sorted flags {none, value, name, both}; the model's strictly-ascending verdict decides accept / reject; counted: items with a non-identity permutation or a sorted flag",
+    "C14": "items = all (quick: up to 24) declaration-order permutations of 3-5 variant enums with explicit / implicit / mixed discriminants and renames x sorted flags {none, value, name, both}; the model's strictly-ascending verdict decides accept / reject; variants written as raw identifiers (r#type) are ordered by the spelling which as_str / names / Display / Debug are observed to answer on the tree under test (probe binary; which spelling is the name is not documented, only that sorted(name) and the string items mean the same name); counted: items with a non-identity permutation or a sorted flag",
 }
 
 
@@ -394,9 +429,14 @@ def run(prop: str, tier: str, seed: int) -> int:
     violations, inconclusive = [], []
     coverage = {}
     try:
-        items = {"C12": c12_items, "C13": c13_items, "C14": c14_items}[prop](tier, seed)
         g = CompileGroup({"C12": "rej12", "C13": "rej13", "C14": "sort"}[prop], tier, per_crate=150)
+        raw_spelling = None
         with Lock(g.root + ".lock"):
+            if prop == "C14":
+                raw_spelling = learn_raw_spelling(g)
+                items = c14_items(tier, seed, raw_spelling)
+            else:
+                items = {"C12": c12_items, "C13": c13_items}[prop](tier, seed)
             res = g.run(items)
         ops = {}
         nontriv = 0
@@ -462,6 +502,9 @@ def run(prop: str, tier: str, seed: int) -> int:
             "rustc_processes_with_expansions": g.rustc_processes,
             "cargo_s": round(g.secs, 1),
         }
+        if prop == "C14":
+            coverage["raw_identifier_name_observed"] = raw_spelling
+            coverage["raw_identifier_items"] = sum(1 for it in items if it.meta["kind"].startswith("rawident"))
     except Inconclusive as e:
         inconclusive.append(str(e))
     return finish(prop, tier, seed, t0, violations, inconclusive, coverage, [
